@@ -191,14 +191,26 @@ class BirthDeath(Distribution):
         ).sum(-1)
 
         y = self.origin - tip_heights
-        if serially_sampled:
+
+        # tips at the present are sampled with probability rho
+        is_rho_tip = (tip_heights == 0.0).logical_and(self.rho > 0.0)
+        if torch.any(is_rho_tip):
             log_p += (
+                torch.where(is_rho_tip, self.rho, torch.ones_like(self.rho))
+                .log()
+                .sum(-1)
+            )
+
+        if serially_sampled:
+            log_p += torch.where(
+                is_rho_tip,
+                torch.zeros_like(y),
                 torch.log(self.psi)
                 - self.log_q(
                     A,
                     B,
                     y,
                     self.origin,
-                )
+                ),
             ).sum(-1)
         return log_p
